@@ -314,8 +314,27 @@ def _observe(op, r):
 
 
 def impl(op, backend):
+    """The property holds for every value, including values that are themselves copies and values whose lazily cached
+    accessors were already read: a deterministic function of the op decides whether the accessors are touched first and
+    whether a second copy step (deepcopy / pickle / copy) is chained after the first one."""
+    import zlib
     v, _, _ = _build(op)
+    h = zlib.crc32(repr(op).encode())
+    if h % 3 == 0:
+        try:
+            _observe(op, v)
+        except Exception:  # noqa: BLE001
+            pass
     r = _apply(op[1], v)
+    if type(r) is not type(v):
+        return "err WrongType:" + type(r).__name__
+    chain = (h // 3) % 4
+    if chain == 1:
+        r = copy.deepcopy(r)
+    elif chain == 2:
+        r = pickle.loads(pickle.dumps(r, protocol=(h // 12) % 6))
+    elif chain == 3:
+        r = copy.copy(r)
     if type(r) is not type(v):
         return "err WrongType:" + type(r).__name__
     return _observe(op, r)
